@@ -49,6 +49,7 @@ func Open(name string) *Trace {
 // Reset starts a new scenario; cfg fields are merged into the Reset event.
 func (t *Trace) Reset(cfg E) int {
 	t.mu.Lock()
+	t.w.Flush() // whatever was recorded so far survives a driver that hangs or crashes in a later scenario
 	t.scn++
 	t.seq = 0
 	t.mu.Unlock()
